@@ -31,6 +31,9 @@ type ExecCall struct {
 	UpdOpt *bool  `json:"update_option,omitempty"`
 	Fail   string `json:"fail,omitempty"` // "" | invalid | matcher : the call is built to fail before the comparison
 	Skip   string `json:"skip,omitempty"` // Skip | Skipf | SkipNow : instead of a Match* call the test calls snaps.Skip* (always its last step)
+	// Spelling: this call goes through a Config whose directory is spelled differently (trailing | dot | dotdot | double):
+	// the same file, hence the same sequence of ordinals
+	Spelling string `json:"dir_spelling,omitempty"`
 }
 
 type Exec struct {
@@ -231,6 +234,9 @@ func genHistory(t *rapid.T, col *collector, ho histOpts) histCase {
 				} else {
 					ec.Call = genSlotCallPooled(t, prog[k], o, col)
 				}
+				if ho.crlf && rapid.IntRange(0, 7).Draw(t, "spelling") == 0 {
+					ec.Spelling = rapid.SampledFrom([]string{"trailing", "dot", "dotdot", "double"}).Draw(t, "spellingkind")
+				}
 				if ho.updOptions {
 					switch rapid.IntRange(0, 5).Draw(t, "updopt") {
 					case 0:
@@ -409,9 +415,12 @@ func runHistory(c histCase, hooks histHooks) error {
 		}
 		newProcess(pr.Mode)
 		// configs per (cfg, update option)
-		cfgFor := func(ci int, upd *bool) *Config {
+		cfgFor := func(ci int, upd *bool, spelling ...string) *Config {
 			s := c.Cfgs[ci]
 			s.Update = upd
+			if len(spelling) > 0 {
+				s.DirStyle = spelling[0]
+			}
 			return s.build(root)
 		}
 		fts := make([]*fakeT, len(pr.Execs))
@@ -473,7 +482,7 @@ func runHistory(c histCase, hooks histHooks) error {
 			newKey := vkeyOf(ec.Call)
 			want := predictOutcome(pr.Mode, ec.UpdOpt, present, prevKey == newKey, ec.Fail)
 
-			r := ec.Call.invoke(cfgFor(ci, ec.UpdOpt), fts[st.Exec])
+			r := ec.Call.invoke(cfgFor(ci, ec.UpdOpt, ec.Spelling), fts[st.Exec])
 			got, err := outcomeOf(r)
 			if err != nil {
 				return fmt.Errorf("process %d %s call #%d on %s (slot %q): %v", pi, name, k, filepath.Base(m.files[ci]), id, err)
@@ -590,6 +599,32 @@ func checkStoredBody(c Call, body string) error {
 }
 
 func classifyHistory(c histCase) ([]string, bool) {
+	for _, pr := range c.Procs {
+		for _, ex := range pr.Execs {
+			for _, ec := range ex.Calls {
+				if ec.Spelling != "" {
+					cc := c
+					cc.Procs = nil
+					for _, p2 := range c.Procs {
+						p3 := p2
+						p3.Execs = nil
+						for _, e2 := range p2.Execs {
+							e3 := e2
+							e3.Calls = nil
+							for _, c2 := range e2.Calls {
+								c2.Spelling = ""
+								e3.Calls = append(e3.Calls, c2)
+							}
+							p3.Execs = append(p3.Execs, e3)
+						}
+						cc.Procs = append(cc.Procs, p3)
+					}
+					cls0, nt0 := classifyHistory(cc)
+					return append(cls0, "one_file_through_differently_spelled_configs"), nt0
+				}
+			}
+		}
+	}
 	if c.CRLFBefore > 0 {
 		cc := c
 		cc.CRLFBefore = 0
